@@ -60,7 +60,19 @@ class Func(Method):
     RENAME = {"prefix": "prefix_", "end": "end_", "at": "at_", "from": "from_", "match": "match_", "fun": "fun_", "then": "then_"}
 
     def local_type(self, name: str) -> str:
-        return "String" if name in ("prefix", "prefix_", "name", "char") else "Nat"
+        """String for locals that receive a part of rpartition(), a str parameter or a str literal; Nat otherwise."""
+        if not hasattr(self, "_strs"):
+            self._strs = set()
+            str_params = {p.arg for p in self.fn.args.args if p.annotation is not None and ast.unparse(p.annotation) == "str"}
+            for node in ast.walk(self.fn):
+                if not isinstance(node, ast.Assign) or len(node.targets) != 1:
+                    continue
+                tg, v = node.targets[0], node.value
+                if isinstance(tg, ast.Tuple) and isinstance(v, ast.Call) and isinstance(v.func, ast.Attribute) and v.func.attr == "rpartition":
+                    self._strs |= {self.RENAME.get(el.id, el.id) for el in tg.elts if isinstance(el, ast.Name)}
+                elif isinstance(tg, ast.Name) and ((isinstance(v, ast.Name) and v.id in str_params) or (isinstance(v, ast.Constant) and isinstance(v.value, str))):
+                    self._strs.add(self.RENAME.get(tg.id, tg.id))
+        return "String" if name in self._strs else "Nat"
 
     def assign_local(self, ind: int, name: str, term: str) -> None:
         super().assign_local(ind, self.RENAME.get(name, name), term)
